@@ -26,7 +26,8 @@ Originals ==
     [k |-> "short", len |-> 115, id |-> 1] }
 NewCallers == IF Thorough THEN {Zero32, B("j", "x2"), Empty, Bytes(31, "junk")} ELSE {Zero32, B("j", "x2"), Empty}
 NewBodies  == IF Thorough THEN {Raw(2, 12), Raw(1, 0), Raw(2, 200), Raw(2, 201), DepBody("a1", 3)} ELSE {Raw(2, 12), Raw(2, 201), DepBody("a1", 3)}
-NewRcpts   == IF Thorough THEN {B("j", "x2"), Pad("a2"), Zero32, Empty, Bytes(31, "junk")} ELSE {B("j", "x2"), Zero32, Bytes(31, "junk")}
+NewRcpts   == IF Thorough THEN {B("j", "x2"), Pad("a2"), Zero32, Empty, Bytes(31, "junk"), Bytes(33, "junk"), Bytes(64, "junk"), Bytes(96, "junk")}
+                          ELSE {B("j", "x2"), Zero32, Bytes(31, "junk"), Bytes(64, "junk")}
 
 MCMsgs(s, h) ==
        [type : {"ReplaceMessage"}, from : {"a1"}, orig : Originals, att : Atts, body : NewBodies, caller : NewCallers]
